@@ -26,6 +26,67 @@ def run(tier, replay=None):
             raise vlib.Infra("twin theorem fails on the specification for session %d: %s vs %s" % (s1["id"], json.dumps(pr1)[:300], json.dumps(pr2)[:300]))
         checked += 1
     ck.part("twin theorem on the specification", pairs_checked=checked)
+    # the same sessions through the real read-eval loop (built binary, REPL mode, piped input): what a later statement prints
+    # must be what CalcSem specifies.  A marker statement after every item splits the transcript.
+    import subprocess, concurrent.futures
+    from check_C16 import render_val
+    calc = vlib.build_calc()
+    ERRTXT = {"nil": "nil error", "type": "type error", "zerodiv": "division by zero", "index": "index error", "arity": "arity mismatch", "conversion": "conversion error", "read": "read error"}
+    # (an unbalanced bracket is not a failing statement for the read-eval loop: it waits for the rest of the statement)
+    rs = [s for fam in fams[:2] for s in fam[1] if not any(("read" in f or "unbalanced" in f) for f in s.get("meta", {}).get("fails", []))
+          and not any(isinstance(it, dict) and it.get("perr") and ("(1" in it["src"] or "[1, 2" in it["src"]) for it in s["items"])]
+    rs = rs[:80] if tier == "quick" else rs[:1500]
+    so2 = sess.spec_obs(rs)
+
+    def run_repl(s):
+        texts = [sess.item_text(it) for it in s["items"]]
+        inp = "".join(t + "\nwrite(\"@@MARK@@\")\n" for t in texts)
+        for attempt in (1, 2):       # the binary has no step hook: a session that normally takes milliseconds and is still running after 120 s, twice, does not terminate
+            try:
+                p = subprocess.run([calc], input=inp, capture_output=True, text=True, timeout=120)
+                return s, texts, p.stdout, p.returncode
+            except subprocess.TimeoutExpired:
+                pass
+        return s, texts, None, -9
+    nrepl = 0
+    with concurrent.futures.ThreadPoolExecutor(max_workers=vlib.NCPU) as ex:
+        for s, texts, out, rc in ex.map(run_repl, rs):
+            ob = so2.get(s["id"])
+            if ob is None:
+                raise vlib.Infra("specification run missing for session %s" % s["id"])
+            if out is None:
+                ck.violation("the interpreter does not terminate on a REPL session with failing statements (two runs of 120 s; the specification finishes it)", {"session": s, "texts": texts})
+                continue
+            ck.cov["evaluations"] += 1
+            nrepl += 1
+            if rc != 0:
+                ck.violation("the interpreter aborted (exit %d) during a REPL session with failing statements" % rc, {"session": s, "texts": texts, "stdout": out[-2000:]})
+                continue
+            body = out[len("calc repl\n"):] if out.startswith("calc repl\n") else out
+            segs = body.split("@@MARK@@> nil\n")
+            if len(segs) != len(texts) + 1:
+                ck.violation("REPL transcript of a session with failing statements has %d segments for %d statements" % (len(segs) - 1, len(texts)), {"session": s, "texts": texts, "stdout": out[-3000:]})
+                continue
+            for i, (o, seg) in enumerate(zip(ob, segs)):
+                if "unspec" in o:
+                    break
+                outtxt = "".join(o.get("out", []))
+                if "perr" in o:
+                    ok = ("> " not in seg.split("\n")[-2:][0]) and ("Parser:" in seg or "Lexer:" in seg)
+                    want = "<a parse error report>"
+                elif "err" in o:
+                    want = outtxt + "RUNTIME ERROR : " + ERRTXT.get(o["err"], o["err"])
+                    ok = seg.startswith(want) or seg.startswith(outtxt + "RUNTIME ERROR : " + ERRTXT.get(o.get("alt", o["err"]), "?"))
+                else:
+                    v = render_val(o["val"])
+                    want = outtxt + "> " + (('"%s"' % v) if o["val"]["k"] == "str" else v) + "\n"
+                    ok = seg == want
+                if not ok:
+                    ck.violation("REPL session, statement %d (%s): specified transcript %r, real %r" % (i + 1, texts[i].replace("\n", " ; ")[:100], want[:200], seg[:300]),
+                                 {"session": s, "texts": texts, "item": i + 1, "stdout": out[-3000:]})
+                    break
+    ck.part("sessions through the real read-eval loop (binary, REPL mode)", sessions=nrepl)
+    ck.cov["traces_validated_against_impl"] += nrepl
     ck.cov["rule"] = props.c08_rule
     ck.assumptions += ["CalcSem.tla as evaluated by TLC is the oracle", "host-level panics are property C05's"]
     return ck.finish()
